@@ -266,6 +266,14 @@ func (c *Ctx) ruleEOFScope() {
 		if cal == nil || !c.alwaysNonNil(cal) {
 			return true
 		}
+		// an error that no test of the include stack leads to is raised for the split and the unsplit document alike
+		// (an unknown keyword, a banned directive - also when the function that raises them has been inlined here)
+		if !gcf.establishedAt(ret, func(cond ast.Expr, holds bool) bool {
+			call, ok := ast.Unparen(cond).(*ast.CallExpr)
+			return ok && emptyM != nil && callee(pk, call) == emptyM
+		}, nil) {
+			return true
+		}
 		own++
 		if !gcf.establishedAt(ret, notEmpty, nil) {
 			bad++
